@@ -58,7 +58,7 @@ impl Cfg {
             exh_val_bits: 16,
             exh_pair_bits: 22,
             n_rand_raw: 512,
-            n_rand_val: 64,
+            n_rand_val: 32,
             n_twin_raws: 8,
             hist_count: 400,
             hist_len: 256,
